@@ -63,6 +63,11 @@ func (inv execInvocation) GobEncode() ([]byte, error) {
 			}
 			continue
 		}
+		if v := reflect.ValueOf(arg); v.Kind() == reflect.Ptr && v.IsNil() {
+			// gob panics on nil pointers; report an error like for any
+			// other value it cannot encode.
+			return nil, fmt.Errorf("encoding arg %d of type %v: nil pointer", i, typ)
+		}
 		if err := enc.Encode(arg); err != nil {
 			return nil, fmt.Errorf("encoding arg %d of type %v: %v", i, typ, err)
 		}
